@@ -760,6 +760,10 @@ pub struct Case13 {
     #[serde(with = "hexser")]
     pub secret: Vec<u8>,
     pub rv: [u8; 4],
+    /// reveal is called from the destructor of a caller's thread-local
+    /// while a thread exits
+    #[serde(default)]
+    pub teardown: Option<crate::env::Teardown>,
 }
 
 fn class13(c: &Case13) -> String {
@@ -794,10 +798,41 @@ fn exec_c13(c: &Case13, obs: &mut Obs) -> Result<(), Failure> {
         attribute_type: c.attr,
         value: c.value.clone(),
     });
-    let rr = real_reveal(h, &c.secret, c.rv);
+    let rr = match c.teardown {
+        None => real_reveal(h, &c.secret, c.rv),
+        Some(order) => {
+            obs.count("env:reveal-at-thread-exit");
+            let (secret, rv) = (c.secret.clone(), c.rv);
+            // ordinary use during the thread's life: one hide and one reveal
+            let warm = || {
+                let rvv = RandomVector::from([1u8, 2, 3, 4]);
+                let _ = guard(|| {
+                    let h = AVP::HostName(rl2tp::avp::types::HostName::from(vec![b'w'; 20])).hide(b"warm", &rvv, &[0u8; 2], &[0u8; 16]);
+                    h.reveal(b"warm", &rvv)
+                });
+            };
+            match crate::env::at_thread_exit(order, warm, move || {
+                let rvv = RandomVector::from(rv);
+                h.reveal(&secret, &rvv)
+            }) {
+                Some(Ok(r)) => Ok(r),
+                Some(Err(p)) => Err(Caught::Panic(
+                    p.downcast_ref::<&str>()
+                        .map(|s| s.to_string())
+                        .or_else(|| p.downcast_ref::<String>().cloned())
+                        .unwrap_or_else(|| "panic".into()),
+                )),
+                None => return Ok(()), // the thread could not be started
+            }
+        }
+    };
     let desc = || {
         format!(
-            "Hidden{{type {}, value {} octets {}}}, secret {} octets, rv {}",
+            "{}Hidden{{type {}, value {} octets {}}}, secret {} octets, rv {}",
+            match c.teardown {
+                Some(o) => format!("[called from a thread-local destructor at thread exit, {o:?}] "),
+                None => String::new(),
+            },
             c.attr,
             c.value.len(),
             to_hex(&c.value[..c.value.len().min(32)]),
@@ -900,6 +935,7 @@ pub fn directed_reveal_cases(fr: &mut Rng, count: usize) -> Vec<Case13> {
             value: fr.bytes(n),
             secret: fr.bytes(sl),
             rv: [rvb[0], rvb[1], rvb[2], rvb[3]],
+            teardown: None,
         };
         let want: u16 = *fr.pick(&[
             0u16,
@@ -962,6 +998,7 @@ impl Scenario for C13 {
                 value,
                 secret: hc.secret.clone(),
                 rv: hc.rv,
+                teardown: None,
             };
             // ... then key skew and ciphertext faults between the parties
             let nf = fr.urange(0, 2);
@@ -1032,6 +1069,7 @@ impl Scenario for C13 {
                 value: fr.bytes(n),
                 secret: fr.bytes(sl),
                 rv: [rvb[0], rvb[1], rvb[2], rvb[3]],
+                teardown: None,
             };
             ctx.obs.count("fault:raw-hidden-value");
             ctx.obs.distinct(fnv1a(&serde_json::to_vec(&c).unwrap()));
@@ -1044,12 +1082,39 @@ impl Scenario for C13 {
             ctx.obs.distinct(fnv1a(&serde_json::to_vec(&c).unwrap()));
             ctx.check::<C13>(&c);
         }
+        // reveal called while a thread is being torn down (one run in four)
+        if ctx.run % 4 == 0 {
+            let attr = *wl.pick(&ALL_ATTRS);
+            let hc = gen_hide_case(&mut wl, &sw, attr, &mut sm);
+            let payload = spec_payload(&hc.avp);
+            if let Some(value) = spec_hide(hc.avp.attr, &payload, &hc.secret, &hc.rv, &hc.lp, &hc.ap, conv) {
+                let c = Case13 {
+                    attr: hc.avp.attr,
+                    value,
+                    secret: hc.secret.clone(),
+                    rv: hc.rv,
+                    teardown: Some(*sm.pick(&[
+                        crate::env::Teardown::RegisteredFirst,
+                        crate::env::Teardown::RegisteredFirst,
+                        crate::env::Teardown::RegisteredLast,
+                        crate::env::Teardown::Cold,
+                    ])),
+                };
+                ctx.check::<C13>(&c);
+            }
+        }
     }
     fn execute(case: &Case13, obs: &mut Obs) -> Result<(), Failure> {
         exec_c13(case, obs)
     }
     fn shrink(case: &Case13) -> Vec<Case13> {
         let mut out = Vec::new();
+        if case.teardown.is_some() {
+            out.push(Case13 {
+                teardown: None,
+                ..case.clone()
+            });
+        }
         for s in shrink_bytes(&case.secret).into_iter().take(8) {
             out.push(Case13 {
                 secret: s,
